@@ -2,6 +2,7 @@ import ConfModel.Driver.Common
 import ConfModel.Model.ReportScript
 import ConfModel.Spec.RunVerdict
 import ConfModel.Model.RunLoop
+import ConfModel.Model.FeedbackLine
 namespace ConfModel.Driver.C04
 open Lean ConfModel.Driver ConfModel.Report ConfModel.RunVerdict
 
@@ -42,6 +43,17 @@ def loopCode (codes : List String) (name : String) : Option String :=
     | none => none
   | none => none
 
+/-- index of the suite case a permutation name belongs to when the cases carry their own test names:
+the permutation's name ends in "/" ++ that name (the longest such name wins) -/
+def loopIdx (names : List String) (name : String) : Option Nat :=
+  (names.zipIdx.foldl (fun (best : Option (Nat × Nat)) (nm, i) =>
+    if name.endsWith ("/" ++ nm) && (match best with | some (l, _) => l < nm.length | none => true)
+    then some (nm.length, i) else best) none).map (·.2)
+
+/-- `loopCode` for either naming -/
+def loopCodeN (names codes : List String) (name : String) : Option String :=
+  if names.isEmpty then loopCode codes name else (loopIdx names name).bind (codes[·]?)
+
 def handleRunLoop (inp impl : Json) : Verdict :=
   if !(isNull (field impl "panic")) then
     { agree := false, holds := false, why := "panic: " ++ str (field impl "panic") } else
@@ -51,15 +63,30 @@ def handleRunLoop (inp impl : Json) : Verdict :=
   let stop := str (field inp "stop")
   let answered := strList (field impl "answered")
   let blind := strList (field impl "blind")
+  -- requests the client read completely and never answered (stops readexit0 / readexit3)
+  let read := strList (field impl "read")
+  let tnames := strList (field inp "names")
+  let tamper := strList (field inp "tamper")
   -- the order of the cases inside a batch is the library's (a Go map order, different in every
   -- run); the sends of a batch are sequential and the client answers in arrival order, so inside a
   -- batch the answered requests precede the others: canonical order
   let batches := (arr (field impl "batches")).map fun b =>
-    (strList b).filter (fun n => answered.contains n) ++ (strList b).filter (fun n => !answered.contains n)
+    (strList b).filter (fun n => answered.contains n) ++
+      (strList b).filter (fun n => !answered.contains n && read.contains n) ++
+      (strList b).filter (fun n => !answered.contains n && !read.contains n)
   let names := batches.flatten
-  if batches.isEmpty || names.any (fun n => (loopCode codes n).isNone) then
+  if batches.isEmpty || names.any (fun n => (loopCodeN tnames codes n).isNone) then
     bad ("runloop: no batches / unknown permutation name; err: " ++ str (field impl "err")) else
-  let codeOf (n : String) : List Char := ((loopCode codes n).getD "ru").toList
+  let codeOf (n : String) : List Char := ((loopCodeN tnames codes n).getD "ru").toList
+  -- the client deviated on the wire for this case (and reported the expected result): the reference
+  -- server has something to say about it — if the request was made at all, and to a server that checks
+  let idxOf (n : String) : Option Nat :=
+    if tnames.isEmpty then (match (n.splitOn "/").getLast? with
+      | some base => (base.drop 1).toString.toNat?
+      | none => none) else loopIdx tnames n
+  let tampered (n : String) : Bool :=
+    ((idxOf n).bind (tamper[·]?)).getD "" != "" && (n.splitOn "(grpc server impl)").length == 1
+  let fb (n : String) : Bool := tampered n && answered.contains n && !blind.contains n
   let markOfName (n : String) : Mark := ((codeOf n)[1]?.bind parseMark).getD .unmarked
   let right (n : String) : Bool := (codeOf n)[0]? == some 'r'
   -- the assignment, by the property's words: a selected case ran iff the client answered it
@@ -67,11 +94,11 @@ def handleRunLoop (inp impl : Json) : Verdict :=
     { name := n
       kind := if blind.contains n then .clientErr
               else if answered.contains n then (if right n then .pass else .assertFail) else .noResult
-      mark := markOfName n, feedback := false }
+      mark := markOfName n, feedback := fb n }
   let want := specOk cases 0
   -- a client that has closed its stdout after answering everything still ends cleanly: it exits
   -- with status 0 when its stdin is closed and the reader sees a plain end of stream
-  let clean := stop == "serve" || stop == "exit0" || stop == "blind0" ||
+  let clean := stop == "serve" || stop == "exit0" || stop == "blind0" || stop == "readexit0" ||
     (stop == "closeout" && names.all (fun n => answered.contains n))
   -- implementation's observation
   let iOk := bool (field impl "ok")
@@ -89,9 +116,13 @@ def handleRunLoop (inp impl : Json) : Verdict :=
   let script (b : List String) : ServerRunner.Script :=
     { cases := b.map fun n =>
         if blind.contains n then .answer .error true
-        else if answered.contains n then .answer (if right n then .pass else .mismatch) true else .refuse
+        else if answered.contains n then .answer (if right n then .pass else .mismatch) true
+        else if read.contains n then .answer .noresult true   -- handed over, never answered
+        else .refuse
       isRef := true, useTLS := false, startErr := false, writeErr := false, closeErr := false
-      resp := .ok, dies := none, names := b.map (·.toList), stderr := [] }
+      resp := .ok, dies := none, names := b.map (·.toList)
+      -- the reference server's feedback lines as its printer writes them (C12: `prefixLine`)
+      stderr := ((b.filter fb).map fun n => FeedbackLine.prefixLine n.toList "deviating request".toList).flatten }
   let world : List RunLoop.Client :=
     [{ startErr := false, batches := batches.map (fun b => { s := script b, noticed := false }), waitErr := !clean }]
   let mOk := RunLoop.Run mk world
@@ -126,7 +157,97 @@ def handleRunLoop (inp impl : Json) : Verdict :=
   { agree := agree, holds := why.isEmpty, nontrivial := true,
     model := Json.mkObj [("ok", mOk), ("passed", mTot.passed), ("expected", mTot.expected), ("failedOrNotRun", mTot.failed + mTot.notRun)],
     why := why,
-    cls := stop ++ (if want then ":all-answered" else ":not-all") ++ (if iOk then ":success" else ":failure") }
+    cls := (if names.any fb then "peer-feedback:" else "") ++ (if tnames.isEmpty then "" else "odd-names:") ++
+      stop ++ (if want then ":all-answered" else ":not-all") ++ (if iOk then ":success" else ":failure") }
+
+/-! ### op "inrun": one whole run in one process (real client runner on an in-process scripted client,
+real batch runner, real results and report, then the verdict as `Run` forms it) -/
+
+/-- what the scripted client did: (requests read, answers (case, kind) in order, it ended cleanly) -/
+def inScript (script : List String) : Nat × List (Nat × String) × Bool :=
+  script.foldl (fun (st : Nat × List (Nat × String) × Bool) a =>
+    match a.splitOn " " with
+    | ["req"] => (st.1 + 1, st.2.1, st.2.2)
+    | ["ans", m, k] => (st.1, st.2.1 ++ [(m.toNat?.getD 0, k)], st.2.2)
+    | ["garbage"] => (st.1, st.2.1, false)
+    | ["exit", c] => (st.1, st.2.1, st.2.2 && c == "0")
+    | _ => st) (0, [], true)
+
+def handleInRun (inp impl : Json) : Verdict :=
+  if bool (field impl "invalid") then
+    { agree := true, holds := true, nontrivial := false, cls := "invalid-input" } else
+  if !(isNull (field impl "panic")) || bool (field impl "hang") || !(strList (field impl "panics")).isEmpty then
+    { agree := false, holds := false, why := "inrun: the run panicked or hung: " ++ toString (strList (field impl "panics")) ++ " " ++ str (field impl "panic") } else
+  let marks := (strList (field inp "marks")).map fun m => ((m.toList.head?.bind parseMark).getD .unmarked)
+  let n := marks.length
+  let (read, answers, clean) := inScript (strList (field inp "client"))
+  let name (i : Nat) : String := "Suite/in/case" ++ toString i
+  let ansOf (i : Nat) : Option String := (answers.find? (fun a => a.1 == i)).map (·.2)
+  -- the assignment, by the property's words: a selected case ran iff the client answered it
+  let cases : List Case := (List.range n).map fun i =>
+    { name := name i
+      kind := match ansOf i with
+        | some "pass" => .pass
+        | some "mismatch" => .assertFail
+        | some _ => .clientErr
+        | none => .noResult
+      mark := marks.getD i .unmarked, feedback := false }
+  let want := specOk cases 0
+  let iOk := bool (field impl "ok")
+  let iTot : Totals := { passed := nat (field impl "passed"), failed := nat (field impl "failed"),
+                         expected := nat (field impl "expected"), notRun := nat (field impl "notRun") }
+  let iFailed := strList (field impl "failedNames")
+  let iInfo := strList (field impl "infoNames")
+  let sum := iTot.passed + iTot.failed + iTot.expected + iTot.notRun
+  let answeredCases := cases.filter (fun c => (ansOf ((c.name.drop 13).toString.toNat?.getD 0)).isSome)
+  let unnamed := (specFailedNames answeredCases).filter (fun n => !iFailed.contains n)
+  let wantTot := specTotals cases 0
+  -- model: `RunLoop.Run` on one client with one batch: answered / handed over and never answered /
+  -- never handed over
+  let mk : Report.Marks :=
+    { failing := fun nm => cases.any (fun c => c.name == nm && c.mark == .failing)
+      flaky := fun nm => cases.any (fun c => c.name == nm && c.mark == .flaky) }
+  let script : ServerRunner.Script :=
+    { cases := (List.range n).map fun i =>
+        match ansOf i with
+        | some "pass" => .answer .pass true
+        | some "mismatch" => .answer .mismatch true
+        | some "error" => .answer .error true
+        | some _ => .answer .neither true
+        | none => if i < read then .answer .noresult true else .refuse
+      isRef := bool (field inp "isRef"), useTLS := false, startErr := false, writeErr := false, closeErr := false
+      resp := .ok, dies := none, names := (List.range n).map (fun i => (name i).toList), stderr := [] }
+  let world : List RunLoop.Client := [{ startErr := false, batches := [{ s := script, noticed := false }], waitErr := !clean }]
+  let mOk := RunLoop.Run mk world
+  let mTot : Totals := match RunLoop.runReport mk world with
+    | some r => { passed := r.succeeded, failed := r.failed, expected := r.expectedFailures, notRun := r.couldNotRun }
+    | none => { passed := 0, failed := 0, expected := 0, notRun := 0 }
+  -- a request that was not read may be refused or accepted and failed, whichever the race gives:
+  -- "failed" and "could not be run" are compared by their sum
+  let agree := iOk == mOk && iTot.passed == mTot.passed && iTot.expected == mTot.expected
+    && iTot.failed + iTot.notRun == mTot.failed + mTot.notRun
+  let why :=
+    if !want && iOk then
+      "verdict: the run succeeded although not every selected case ran and met its expectation ("
+        ++ toString ((cases.filter (fun c => !c.meets)).map (·.name)) ++ "); the client read " ++ toString read
+        ++ " request(s), answered " ++ toString (answers.map (·.1)) ++ (if clean then " and ended cleanly" else " and ended with an error")
+    else if want && clean && !iOk then
+      "verdict: the run failed although every selected case ran and met its expectation and the client ended cleanly"
+    else if !unnamed.isEmpty then "unnamed: failing cases not named on a FAILED line: " ++ toString unnamed
+    else if sum != n then
+      "totals: the printed totals account for " ++ toString sum ++ " of " ++ toString n ++ " selected cases"
+    else if iTot.passed != wantTot.passed || iTot.expected != wantTot.expected then
+      "classes: printed passed/expected " ++ toString iTot.passed ++ "/" ++ toString iTot.expected ++
+        " but the answered cases give " ++ toString wantTot.passed ++ "/" ++ toString wantTot.expected
+    else if iFailed.length != iTot.failed || iInfo.length != iTot.expected then
+      "names: " ++ toString iFailed.length ++ " FAILED / " ++ toString iInfo.length ++ " INFO lines for totals " ++ reprStr iTot
+    else ""
+  let pendingAtEnd := (List.range n).any (fun i => i < read && (ansOf i).isNone)
+  { agree := agree, holds := why.isEmpty, nontrivial := true,
+    model := Json.mkObj [("ok", mOk), ("passed", mTot.passed), ("expected", mTot.expected), ("failedOrNotRun", mTot.failed + mTot.notRun)],
+    why := why,
+    cls := (if clean then "clean-end" else "unclean-end") ++ (if pendingAtEnd then ":unanswered-pending" else "") ++
+      (if want then ":all-answered" else ":not-all") ++ (if iOk then ":success" else ":failure") }
 
 def handle : Handler := fun op inp impl =>
   match op with
@@ -238,6 +359,7 @@ def handle : Handler := fun op inp impl =>
   | "runloop" => handleRunLoop inp impl
   -- the same scenarios through the real command (exit status = verdict)
   | "runcli" => handleRunLoop inp impl
+  | "inrun" => handleInRun inp impl
   | _ => bad ("C04: unknown op " ++ op)
 
 end ConfModel.Driver.C04
